@@ -82,6 +82,7 @@ type VerifServiceInfoMessage struct {
 // recording transport and returns the messages the device would have sent.
 func VerifServiceInfoRounds(ctx context.Context, mtu uint16, r *serviceinfo.ChunkReader, n int) ([]VerifServiceInfoMessage, error) {
 	rec := &verifRecorder{}
+	ctx = contextWithErrMsg(ctx)
 	unchunk, w := serviceinfo.NewChunkInPipe(1000)
 	_ = unchunk
 	defer func() { _ = w.Close() }()
